@@ -1,6 +1,8 @@
 (* C09 - property theorems only. *)
 From HV Require Import Prelude Stats StatsR C15_Model C15_Check C15_Proofs C09_Model C09_Check C09_Proofs.
-From Coq Require Import Reals.
+From HV Require Import C09_ProofsModel C09_ProofsStd C09_ProofsFloat.
+From Coq Require Import Reals Qreals Qround SpecFloat.
+Open Scope Z_scope.
 
 (* The noise variance run() computes (nested conditionals, verbatim) is the documented
    piecewise formula: max 0 (1 - sum beta^2) when neither heritability nor environment
@@ -58,14 +60,21 @@ Example C09_threshold_contract_inhabited :
 Proof. exact threshold_contract_inhabited_lemma. Qed.
 Print Assumptions C09_threshold_contract_inhabited.
 
-(* soundness of the pairwise liability check evaluated on the implementation's output *)
+(* soundness of the liability check evaluated on the implementation's output (rows = is a
+   case, liability, slack): no control's liability exceeds a case's by more than the slacks;
+   and the one-pass check accepts exactly what the pairwise comparison accepts *)
 Theorem C09_liability_check_sound : forall rows : list (bool * (Q * Q)),
-  forallb (fun '(ci, (li, si)) =>
-     negb ci || forallb (fun '(cj, (lj, sj)) => cj || Qle_bool lj (li + si + sj)) rows) rows = true ->
+  liab_sep rows = true ->
   forall ci li si cj lj sj, In (ci, (li, si)) rows -> In (cj, (lj, sj)) rows ->
   ci = true -> cj = false -> (lj <= li + si + sj)%Q.
 Proof. exact liab_check_sound. Qed.
 Print Assumptions C09_liability_check_sound.
+
+Theorem C09_liability_check_complete : forall rows : list (bool * (Q * Q)),
+  (forall li si lj sj, In (true, (li, si)) rows -> In (false, (lj, sj)) rows -> (lj <= li + si + sj)%Q) ->
+  liab_sep rows = true.
+Proof. exact liab_sep_complete. Qed.
+Print Assumptions C09_liability_check_complete.
 
 (* R calls of run append R columns for the same samples in input order, and the names
    the writer emits for them are pairwise distinct *)
@@ -121,3 +130,264 @@ Theorem C09_zcheck_exact_sound : forall v d z : R,
   (0 < v)%R -> (z * z * v = d * d)%R -> ((0 <= z)%R <-> (0 <= d)%R) -> z = (d / sqrt v)%R.
 Proof. exact zcheck_exact_sound. Qed.
 Print Assumptions C09_zcheck_exact_sound.
+
+(* ------------------------------------------------------------------------------------
+   The linear model, composed (C09_Model.run_q: one call of run over exact rationals; the
+   standardised matrix is an input, see C09_zcol_exact_sound for what the checker demands
+   of it).
+   ------------------------------------------------------------------------------------ *)
+
+(* Z_j (raw) is the per-sample dosage of the column: the sum of the two alleles, in Z -
+   a repeat with 130 copies on both strands has dosage 260, not 260 mod 256 *)
+Theorem C09_dosage_sum : forall gt cols i j, (i < length gt)%nat -> (j < length cols)%nat ->
+  nth j (nth i (dosage gt cols) []) 0
+  = fst (nth (nth j cols 0%nat) (nth i gt []) (0, 0)) + snd (nth (nth j cols 0%nat) (nth i gt []) (0, 0)).
+Proof. exact dosage_nth. Qed.
+Print Assumptions C09_dosage_sum.
+
+Example C09_dosage_no_wrap : dosage [[(130, 130)]; [(253, 253)]; [(128, 128)]] [0%nat] = [[260]; [506]; [256]].
+Proof. reflexivity. Qed.
+Print Assumptions C09_dosage_no_wrap.
+
+(* every liability is sum_j beta_j Z_ij + eps_i *)
+Theorem C09_linear_model : forall betas z eps, length eps = length z ->
+  length (liability_q betas z eps) = length z
+  /\ forall i, (i < length z)%nat ->
+       (nth i (liability_q betas z eps) 0 == lincomb betas (nth i z []) + nth i eps 0)%Q.
+Proof. exact liability_q_spec. Qed.
+Print Assumptions C09_linear_model.
+
+(* one call of run: the effects used are those whose ID is among the genotype IDs, each
+   beta with the first column of its own ID; the raw dosage is the allele sum; the noise
+   variance is the documented one; the quantitative phenotype is sum beta Z + eps on the
+   matrix Z the betas multiply (standardised: given; else the raw dosage); the
+   case/control phenotype marks the threshold selection *)
+Theorem C09_run_model_spec : forall gids gt eff zstd h2 env kk eps sel out,
+  run_q gids gt eff zstd h2 env kk eps sel = Ok out ->
+  let al := aligned gids eff in
+  let betas := map (fun x => snd (snd x)) al in
+  let z := match zstd with Some z => z | None => map (map inject_Z) (dosage gt (map fst al)) end in
+  map snd al = filter (fun e => C15_Proofs.present C09_Model.id name_eqb gids (fst e)) eff
+  /\ (forall k e, In (k, e) al -> nth_error gids k = Some (fst e))
+  /\ ro_ids out = map (fun x => fst (snd x)) al
+  /\ ro_dosage out = dosage gt (map fst al)
+  /\ (ro_noise out == documented_noise betas h2 env (qvar (genetic betas z)))%Q
+  /\ (length eps = length z ->
+      match kk with
+      | None => length (ro_pt out) = length z
+                /\ forall i, (i < length z)%nat ->
+                     (nth i (ro_pt out) 0 == lincomb betas (nth i z []) + nth i eps 0)%Q
+      | Some k => ro_pt out = map bool_q (threshold (length z) k sel)
+      end).
+Proof. exact run_q_spec. Qed.
+Print Assumptions C09_run_model_spec.
+
+Example C09_run_model_inhabited :
+  exists out, run_q [[118; 48]] [[(0, 1)]; [(1, 1)]] [([118; 48], (1 # 2)%Q)] None None None None [0%Q; (1 # 4)%Q] [] = Ok out
+              /\ ro_pt out = [(1 # 2)%Q; (5 # 4)%Q].
+Proof. exact run_q_inhabited. Qed.
+Print Assumptions C09_run_model_inhabited.
+
+(* case/control on the model's liabilities: 0/1 vector, exactly k ones, every case's
+   sum beta Z + eps is >= every control's *)
+Theorem C09_case_control_model : forall betas z eps k sel,
+  length eps = length z ->
+  let l := liability_q betas z eps in
+  let n := length z in
+  NoDup sel ->
+  (forall i, In i sel -> 0 <= i < Z.of_nat n) ->
+  (k <> Z.of_nat n -> lenZ sel = k) ->
+  (forall i j, In (Z.of_nat i) sel -> ~ In (Z.of_nat j) sel -> (j < n)%nat -> (nth j l 0 <= nth i l 0)%Q) ->
+  let pt := phenotype_q betas z eps (Some k) sel in
+  length pt = n
+  /\ (forall i, (i < n)%nat -> nth i pt 0%Q = 1%Q \/ nth i pt 0%Q = 0%Q)
+  /\ (0 <= k <= Z.of_nat n -> count_ones pt = k)
+  /\ (forall i j, (i < n)%nat -> (j < n)%nat -> nth i pt 0%Q = 1%Q -> nth j pt 0%Q = 0%Q ->
+        (lincomb betas (nth j z []) + nth j eps 0 <= lincomb betas (nth i z []) + nth i eps 0)%Q).
+Proof. exact case_control_model. Qed.
+Print Assumptions C09_case_control_model.
+
+Example C09_case_control_model_inhabited :
+  let l := liability_q [(1 # 2)%Q] [[0%Q]; [1%Q]; [2%Q]] [0%Q; 0%Q; 0%Q] in
+  NoDup [2] /\ (forall i, In i [2] -> 0 <= i < 3) /\ lenZ [2] = 1
+  /\ (forall i j, In (Z.of_nat i) [2] -> ~ In (Z.of_nat j) [2] -> (j < 3)%nat -> (nth j l 0 <= nth i l 0)%Q)
+  /\ phenotype_q [(1 # 2)%Q] [[0%Q]; [1%Q]; [2%Q]] [0%Q; 0%Q; 0%Q] (Some 1) [2] = [0%Q; 0%Q; 1%Q].
+Proof. exact case_control_model_inhabited. Qed.
+Print Assumptions C09_case_control_model_inhabited.
+
+(* ------------------------------------------------------------------------------------
+   k = int(prevalence * n)
+   ------------------------------------------------------------------------------------ *)
+
+(* Python's int() of a finite non-negative double is the floor of its exact rational
+   value (k_of K n is by definition sf_trunc of the double product K * float(n)) *)
+Theorem C09_int_is_floor : forall (x : spec_float) (q : Q),
+  sf2q x = Some q -> (0 <= q)%Q -> sf_trunc x = Some (Qfloor q).
+Proof. exact trunc_is_floor. Qed.
+Print Assumptions C09_int_is_floor.
+
+(* over the rationals floor(K n) is a count in [0, n] (and < n: prevalence < 1 never makes
+   everybody a case) *)
+Theorem C09_floor_Kn_rational : forall K n, (0 <= K)%Q -> (K < 1)%Q -> 0 <= n ->
+  0 <= k_rat K n <= n /\ (0 < n -> k_rat K n < n).
+Proof. exact k_rat_bounds. Qed.
+Print Assumptions C09_floor_Kn_rational.
+
+(* what run does with a k in [0, n]: k samples are marked (the other branches of cases_of
+   - everybody, ValueError, counting from the end - need a prevalence outside [0,1)) *)
+Theorem C09_cases_of_in_range : forall k n, 0 <= k <= n -> cases_of k n = Ok k.
+Proof. exact cases_of_in_range. Qed.
+Print Assumptions C09_cases_of_in_range.
+
+(* ------------------------------------------------------------------------------------
+   what the clauses of holds mean on the implementation's output
+   ------------------------------------------------------------------------------------ *)
+
+Theorem C09_rng_call_sound : forall c r, rng_call_holds c r = true ->
+  f2q (rp_loc r) = Some (f2q0 (rp_loc r)) /\ (f2q0 (rp_loc r) == 0)%Q /\ rp_size r = Z.of_nat (nsamp c).
+Proof. exact rng_call_holds_sound. Qed.
+Print Assumptions C09_rng_call_sound.
+
+Theorem C09_zcheck_tolerance_sound : forall tol v d z, (0 < v)%Q -> zcheck_tol tol v d z = true ->
+  (Qabs (qsq z - qsq d / v) <= tol * (qsq d / v + 1))%Q
+  /\ ((tol * v < qsq d)%Q -> qsgn z = qsgn d).
+Proof. exact zcheck_tol_sound. Qed.
+Print Assumptions C09_zcheck_tolerance_sound.
+
+Theorem C09_zcol_checker_is_tol9 : forall ds zs,
+  zcol_ok ds zs = true -> zcol_tol tol9 (map zq ds) (map f2q0 zs) = true.
+Proof. exact zcol_ok_is_tol9. Qed.
+Print Assumptions C09_zcol_checker_is_tol9.
+
+(* the column check at tolerance 0 (over the reals): the checked column IS the
+   standardised dosage column - mean 0 and variance 1, or all zeros when constant *)
+Theorem C09_zcol_exact_sound : forall (qd zs : list Q),
+  qd <> [] -> zcol_tol 0 qd zs = true ->
+  let x := map Q2R qd in
+  let z := map Q2R zs in
+  z = rstandardize x
+  /\ ((0 < rvar x)%R -> rmean z = 0%R /\ rvar z = 1%R)
+  /\ (rvar x = 0%R -> z = map (fun _ => 0%R) x).
+Proof. exact zcol_exact_sound. Qed.
+Print Assumptions C09_zcol_exact_sound.
+
+Example C09_zcol_exact_inhabited :
+  zcol_tol 0 [0%Q; 2%Q; 2%Q; 0%Q] [(-1)%Q; 1%Q; 1%Q; (-1)%Q] = true
+  /\ zcol_tol 0 [1%Q; 1%Q] [0%Q; 0%Q] = true
+  /\ (0 < qvar [0%Q; 2%Q; 2%Q; 0%Q])%Q
+  /\ forallb (fun '(d, z) => zcheck_tol tol9 (qvar [0%Q; 2%Q; 2%Q; 0%Q]) d z)
+             (combine (qdev [0%Q; 2%Q; 2%Q; 0%Q]) [(-1)%Q; 1%Q; 1%Q; (-1)%Q]) = true.
+Proof. exact zcol_exact_inhabited. Qed.
+Print Assumptions C09_zcol_exact_inhabited.
+
+(* the column check at the tolerance the checker really uses, on a dosage column with
+   positive variance: the checked column's second moment is 1 up to twice the tolerance
+   (the standardised column has mean 0, so this is its variance) *)
+Theorem C09_zcol_second_moment : forall tol qd zs,
+  (0 < qvar qd)%Q -> length zs = length qd ->
+  forallb (fun '(d, z) => zcheck_tol tol (qvar qd) d z) (combine (qdev qd) zs) = true ->
+  (Qabs (qmean (map qsq zs) - 1) <= 2 * tol)%Q.
+Proof. exact zcol_second_moment. Qed.
+Print Assumptions C09_zcol_second_moment.
+
+(* holds on an observed answer in the property's domain: every replicate's one draw is
+   normal(0, s, n) with s >= 0 and s^2 the documented variance up to 1e-9 of the operands'
+   magnitude, and the phenotype clause holds *)
+Theorem C09_holds_run_sound : forall c o, in_domain c = true -> r_obs c = Ok o -> holds_run c = true ->
+  z_spec_ok c o = true /\ genetic_ok c o = true /\ columns_ok false c o = true
+  /\ forall r, In r (o_reps o) ->
+       (f2q0 (rp_loc r) == 0)%Q /\ rp_size r = Z.of_nat (nsamp c)
+       /\ (0 <= f2q0 (rp_scale r))%Q
+       /\ (Qabs (qsq (f2q0 (rp_scale r)) - documented_noise (betas_of c) (oq (r_h2 c)) (oq (r_env c)) (gvar o))
+           <= tol9 * noise_scale (betas_of c) (oq (r_h2 c)) (oq (r_env c)) (gvar o))%Q
+       /\ pheno_ok false c o r = true.
+Proof. exact holds_run_sound. Qed.
+Print Assumptions C09_holds_run_sound.
+
+Theorem C09_pheno_quant_sound : forall c o r, r_prev c = None -> pheno_ok false c o r = true ->
+  length (o_g o) = nsamp c ->
+  length (rp_eps r) = nsamp c /\ length (rp_pt r) = nsamp c
+  /\ forall i, (i < nsamp c)%nat ->
+       let g := f2q0 (nth i (o_g o) PrimFloat.zero) in
+       let e := f2q0 (nth i (rp_eps r) PrimFloat.zero) in
+       let p := f2q0 (nth i (rp_pt r) PrimFloat.zero) in
+       (Qabs (p - (g + e)) <= tol9 * (Qabs g + Qabs e))%Q.
+Proof. exact pheno_quant_sound. Qed.
+Print Assumptions C09_pheno_quant_sound.
+
+Theorem C09_pheno_cc_sound : forall c o r K, r_prev c = Some K -> pheno_ok false c o r = true ->
+  exists k, k_of K (Z.of_nat (nsamp c)) = Some k
+    /\ count_true (map is_case (rp_pt r)) = k
+    /\ Forall (fun p => PrimFloat.eqb p PrimFloat.one = true \/ PrimFloat.eqb p PrimFloat.zero = true) (rp_pt r)
+    /\ let ge := combine (o_g o) (rp_eps r) in
+       let liab := map (fun '(g, e) => (f2q0 g + f2q0 e)%Q) ge in
+       let slack := map (fun '(g, e) => (tol9 * (Qabs (f2q0 g) + Qabs (f2q0 e)))%Q) ge in
+       forall ci li si cj lj sj,
+         In (ci, (li, si)) (combine (map is_case (rp_pt r)) (combine liab slack)) ->
+         In (cj, (lj, sj)) (combine (map is_case (rp_pt r)) (combine liab slack)) ->
+         ci = true -> cj = false -> (lj <= li + si + sj)%Q.
+Proof. exact pheno_cc_sound. Qed.
+Print Assumptions C09_pheno_cc_sound.
+
+(* ------------------------------------------------------------------------------------
+   From K to the count (relative to the standard library's specification of the primitive
+   floats and integers, through Flocq's bridge, and the axioms of Reals)
+   ------------------------------------------------------------------------------------ *)
+From Flocq Require Import Core.
+Open Scope Z_scope.
+
+(* k_of K n = int(K * n) for a finite double K in [0,1) and 0 <= n < 2^53: the floor of the
+   correctly rounded (nearest-even, binary64) product; it lies in [0, n]; the rounded
+   product is within 2^-53 K n + 2^-1075 of the exact one *)
+Theorem C09_k_of_floor : forall (K : PrimFloat.float) (n : Z),
+  ffinite K = true -> (0 <= f2q0 K)%Q -> (f2q0 K < 1)%Q -> 0 <= n < 2 ^ 53 ->
+  let x := (Q2R (f2q0 K) * IZR n)%R in
+  let p := rnd64 x in
+  k_of K n = Some (Zfloor p)
+  /\ 0 <= Zfloor p <= n
+  /\ (0 <= p <= IZR n)%R
+  /\ (Rabs (p - x) <= bpow radix2 (-53) * x + bpow radix2 (-1075))%R.
+Proof. exact k_of_floor. Qed.
+Print Assumptions C09_k_of_floor.
+
+(* the hypotheses are satisfiable, and on 0.35 * 100 and 0.29 * 100 (not 29: the double
+   nearest 0.29 times 100 rounds to 28.999999999999996) k_of evaluates to 35 and 28; the
+   doubles 0.35 and 0.29 are written as the correctly rounded quotients 35/100 and 29/100 *)
+Example C09_k_of_floor_inhabited :
+  let K35 := PrimFloat.div (f_of_Z 35) (f_of_Z 100) in
+  let K29 := PrimFloat.div (f_of_Z 29) (f_of_Z 100) in
+  ffinite K35 = true /\ (0 <= f2q0 K35)%Q /\ (f2q0 K35 < 1)%Q
+  /\ (f2q0 K35 == 3152519739159347 # 9007199254740992)%Q
+  /\ k_of K35 100 = Some 35
+  /\ k_of K29 100 = Some 28
+  /\ k_of (f_of_Z 0) 7 = Some 0.
+Proof. vm_compute. repeat split; first [reflexivity | discriminate]. Qed.
+Print Assumptions C09_k_of_floor_inhabited.
+
+(* "With prevalence K exactly floor(K n) samples are cases and every case's liability is
+   >= every control's": from K, n and argpartition's contract to the count *)
+Theorem C09_case_count_from_K : forall (liab : nat -> Q) (K : PrimFloat.float) (n : nat) (sel : list Z),
+  ffinite K = true -> (0 <= f2q0 K)%Q -> (f2q0 K < 1)%Q -> Z.of_nat n < 2 ^ 53 ->
+  let k := Zfloor (rnd64 (Q2R (f2q0 K) * IZR (Z.of_nat n))) in
+  NoDup sel ->
+  (forall i, In i sel -> 0 <= i < Z.of_nat n) ->
+  (k <> Z.of_nat n -> lenZ sel = k) ->
+  (forall i j, In (Z.of_nat i) sel -> ~ In (Z.of_nat j) sel -> (j < n)%nat -> (liab j <= liab i)%Q) ->
+  let cc := threshold n k sel in
+  k_of K (Z.of_nat n) = Some k
+  /\ cases_of k (Z.of_nat n) = Ok k
+  /\ length cc = n
+  /\ count_true cc = k
+  /\ (forall i j, (i < n)%nat -> (j < n)%nat ->
+        nth i cc false = true -> nth j cc false = false -> (liab j <= liab i)%Q).
+Proof. exact case_count_from_K. Qed.
+Print Assumptions C09_case_count_from_K.
+
+(* ... and evaluating holds on the implementation's output therefore means: every
+   replicate has exactly floor(fl(K n)) cases *)
+Theorem C09_holds_case_count : forall c o K, in_domain c = true -> r_obs c = Ok o -> holds_run c = true ->
+  r_prev c = Some K -> Z.of_nat (nsamp c) < 2 ^ 53 ->
+  forall r, In r (o_reps o) ->
+    count_true (map is_case (rp_pt r)) = Zfloor (rnd64 (Q2R (f2q0 K) * IZR (Z.of_nat (nsamp c)))).
+Proof. exact holds_case_count. Qed.
+Print Assumptions C09_holds_case_count.
